@@ -234,6 +234,7 @@ type opCtx struct {
 	sender int         // submitter (submit ops), -1 otherwise
 	hash   common.Hash // submitted transaction
 	round  int         // concurrent round number (1-based)
+	drop0  bool        // commit ops: the age-based drop of offered transactions was set to "everything" for this commit
 }
 
 // plentiful is a gross bound, not a fee model: a sender that still owns > 10^23 wei in the speculative state
@@ -365,7 +366,21 @@ func (w *world) checkMembership(s *mempool.VerifSnapshot, op opCtx, after string
 				return
 			}
 		}
-		if !wasPooled && pooled && !(op.kind == "submit" && op.hash == h) && !(op.kind == "round" && t.Round == op.round) {
+		if t.Injected && op.kind == "commit" {
+			// submitted at the pool-lock point of this very commit: this is the first operation boundary after it.
+			// Admitted means pooled afterwards, unless the commit legitimately invalidated it (a foreign block consumed
+			// its nonce, the age-based drop was switched to "everything" for this commit, the sender is no longer rich).
+			t.Injected = false
+			// still executable after the commit: it carries the sender's next executable nonce (a foreign block may
+			// have consumed its nonce, or invalidated a predecessor, in which case the pool drops the successors too),
+			// the sender is rich, and the age-based drop was not set to "everything" for this commit
+			stillValid := !op.drop0 && w.validQueued(t, next)
+			if t.Accepted && !pooled && cur != "committed" && stillValid {
+				w.violation("membership/admitted-at-commit-lock-point-lost", fmt.Sprintf("tx %s of %s (nonce %d) was admitted by AddTx at the pool-lock point of the commit and is neither pooled nor committed after %s", short(h), w.fromStr(t), t.Nonce, after), s,
+					map[string]interface{}{"sender_history": w.slice(w.senderOf(t).Addr)})
+				return
+			}
+		} else if !wasPooled && pooled && !(op.kind == "submit" && op.hash == h) && !(op.kind == "round" && t.Round == op.round) {
 			w.violation("membership/reappeared", fmt.Sprintf("tx %s was not pooled before and is in the %s list after %s which did not submit it", short(h), cur, after), s, nil)
 			return
 		}
